@@ -60,8 +60,14 @@ func genPairCase(t *rapid.T, optSets []string, tweak func(*gen.Profile)) PairCas
 		p.MaxArr = 8
 	}
 	a, b, _ := gen.Pair(t, p)
+	if jdx.SetKeysOf(opts) == nil && gen.Chance(t, "spellingTwins", 3) {
+		a, b = gen.SpellingTwins(t)
+	}
 	if gen.Chance(t, "pathTwins", 2) {
 		a, b = gen.PathTwins(t, a, b, p)
+	}
+	if jdx.SetKeysOf(opts) == nil && gen.Chance(t, "repeatedBlocks", 2) {
+		a, b = gen.RepeatedBlocks(t, p)
 	}
 	if gen.Chance(t, "deep", 15) {
 		a, b = gen.DeepPair(t, a, b, p)
@@ -264,6 +270,29 @@ func hugeRunPair(t *rapid.T) PairCase {
 	for i := 0; i < n; i++ {
 		a = append(a, float64(i%40))
 	}
+	if kind := gen.Int(t, "hugeKind", 0, 2); kind > 0 {
+		// the same length and one or two elements substituted, or one element gone
+		n = gen.Int(t, "nExact", 1025, 1200)
+		a = a[:0]
+		mod := gen.Pick(t, "hugeMod", []int{1, 2, 40, 5000})
+		for i := 0; i < n; i++ {
+			a = append(a, float64(i%mod))
+		}
+		b := append([]val.V{}, a...)
+		if kind == 1 {
+			for k := gen.Int(t, "nSubst", 1, 2); k > 0; k-- {
+				b[gen.Pick(t, "substAt", []int{0, 1, n / 2, n - 2, n - 1, gen.Int(t, "substAny", 0, n-1)})] = "changed"
+			}
+		} else {
+			i := gen.Pick(t, "goneAt", []int{0, n / 2, n - 1})
+			b = append(b[:i:i], b[i+1:]...)
+		}
+		var av, bv val.V = a, b
+		if gen.Chance(t, "underKey", 40) {
+			av, bv = map[string]val.V{"k": a, "z": 1.0}, map[string]val.V{"k": b, "z": 1.0}
+		}
+		return PairCase{A: val.JSON(av), B: val.JSON(bv), Opts: "list"}
+	}
 	at := gen.Int(t, "runAt", 100, n-100)
 	elem := gen.Pick(t, "runElem", []val.V{0.0, "", map[string]val.V{"k": 1.0}})
 	run := gen.Int(t, "run", 2, 30)
@@ -285,7 +314,7 @@ func hugeRunPair(t *rapid.T) PairCase {
 
 func TestC01Random(t *testing.T) {
 	RunRandom(t, "C01", "random", func(t *rapid.T) PairCase {
-		if gen.Chance(t, "hugeRun", 1) && gen.Chance(t, "hugeRun2", 30) {
+		if gen.Chance(t, "hugeRun", 1) && gen.Chance(t, "hugeRun2", 50) {
 			return hugeRunPair(t)
 		}
 		return genPairCase(t, c01OptSets, func(p *gen.Profile) {
